@@ -58,6 +58,30 @@ def gen_case(rng, maxdepth, size, style, allow=()):
 
 
 def generate(tier, rng):
+    """the cases of _generate, plus cases whose parser / Lua object is not fresh: every k-th valid program is parsed
+    again by a Parser object that parsed the previous valid program first (the result must not depend on that
+    history: judged exactly like the fresh parse, derivation tree included), and by a Lua object that was given the
+    previous program first (update_from_lines twice: picotool appends, the accumulated token list is judged as a
+    text case: model correspondence and the conditions on every accepted parse)"""
+    prev = None
+    k = 0
+    for c in _generate(tier, rng):
+        yield c
+        if c['kind'] != 'gen' or c.get('style') == 'special':
+            continue
+        k += 1
+        if prev is not None and k % 5 == 0:
+            d = dict(c)
+            d['prior'] = prev
+            d['prior_mode'] = 'parser'
+            yield d
+        if prev is not None and k % 11 == 0:
+            yield {'kind': 'text', 'src': c['src'], 'origin': 'after-another-program', 'prior': prev, 'prior_mode': 'lua'}
+        if b'\n' in lib.unhx(c['src']):
+            prev = c['src']
+
+
+def _generate(tier, rng):
     n = 220 if tier == 'quick' else 2500
     styles = ['random', 'compact', 'spaces']
     for i in range(n):
@@ -148,7 +172,10 @@ def remap_tree(tree, remap):
 
 def run_impl(case):
     src = lib.unhx(case['src'])
-    o = pstack.observe_parse(src)
+    if case.get('prior') is not None:
+        o = pstack.observe_parse(src, prior=lib.unhx(case['prior']), mode=case['prior_mode'])
+    else:
+        o = pstack.observe_parse(src)
     o.pop('lua', None)
     toks = o.pop('tokens', None)
     if toks is None:
@@ -226,6 +253,8 @@ def failure_class(case, obs, answers=None):
 
 def signature(case, obs, answers=None):
     sp = special_of(case) if case['kind'] == 'gen' else None
+    if case.get('prior') is not None:
+        sp = (sp + '+' if sp else '') + 'used-%s-object' % case['prior_mode']
     return 'C08/%s/%s' % (failure_class(case, obs, answers), sp or 'general')
 
 
@@ -241,8 +270,14 @@ def what(case, obs, answers=None):
 
 
 def describe(case, obs):
-    return {'kind': case['kind'], 'src': lib.unhx(case['src'])[:120].decode('latin-1'), 'features': case.get('features'),
-            'result': (obs.get('parse') or obs.get('lex_error') or '')[:60]}
+    d = {'kind': case['kind'], 'src': lib.unhx(case['src'])[:120].decode('latin-1'), 'features': case.get('features'),
+         'result': (obs.get('parse') or obs.get('lex_error') or '')[:60]}
+    if case.get('prior') is not None:
+        d['history'] = 'one %s object, which first %s: %s' % (
+            {'parser': 'Parser', 'lua': 'Lua'}[case['prior_mode']],
+            {'parser': 'parsed (process_tokens)', 'lua': 'was given (update_from_lines)'}[case['prior_mode']],
+            lib.unhx(case['prior'])[:120].decode('latin-1'))
+    return d
 
 
 def nontrivial_key(case, obs):
@@ -354,7 +389,7 @@ def minimize(case, obs, bad, ctx):
     import random
     import time
     sig = signature(case, obs, bad)
-    if case['kind'] != 'gen':
+    if case['kind'] != 'gen' or case.get('prior') is not None:
         return case, obs, bad
     allow = MAIN_ALLOW + tuple({'short-if-do-body': 'shortif_do_body'}[f] for f in case.get('features', []) if f in SPECIAL)
     rng = random.Random(len(case['src']))
